@@ -4,7 +4,7 @@
    assigned cell to cells without outgoing edges and cannot close a cycle. *)
 From Coq Require Import List ZArith Lia Bool Arith Relations.
 Import ListNotations.
-Require Import Gram.Model.Term Gram.Model.DeBruijn Gram.Model.ModelB Gram.Proofs.ModelBProofs Gram.Proofs.StoreProofs.
+Require Import Gram.Model.Term Gram.Model.DeBruijn Gram.Model.ModelB Gram.Proofs.ModelBProofs Gram.Proofs.ModelBEq Gram.Proofs.StoreProofs.
 
 (* the cells mentioned by a term *)
 Fixpoint holes_of (t : term) : list nat :=
@@ -254,7 +254,8 @@ Qed.
 Theorem unifyB_acyclic : forall f s D a b ok s', unifyB f s D a b = Some (ok, s') -> acyclic s -> acyclic s'.
 Proof.
   induction f as [|f IH]; intros s D a b ok s' H AC; [discriminate|].
-  cbn [unifyB] in H. cbv zeta in H.
+  (* unfold one layer through the equations of ModelBEq.v: unfolding unifyB itself costs the kernel minutes *)
+  rewrite unifyB_S in H. unfold unify_body in H.
   destruct (syn_eqB f s a b) as [[|]|]; [injection H as _ <-; exact AC | | discriminate].
   destruct (whnfB f s D a) as [[w1 s1]|] eqn:W1; [|discriminate].
   destruct (whnfB f s1 D b) as [[w2 s2]|] eqn:W2; [|discriminate].
@@ -265,7 +266,8 @@ Proof.
   assert (U2 : forall id sh, w2 = THole id sh -> sget s2 id = None).
   { intros id sh ->. eapply whnfB_hole_unsolved; eauto. }
   clear W1 W2 G1 G2 AC.
-  destruct w1, w2; break_match H; try discriminate H; try (injection H as _ <-); ih_acyc IH;
+  destruct w1, w2; cbv beta iota zeta delta [unify_head] in H;
+    break_match H; try discriminate H; try (injection H as _ <-); ih_acyc IH;
     try exact AC2;
     try (eapply solve_acyclic; [exact AC2 | first [eapply U1; reflexivity | eapply U2; reflexivity] | eassumption | eassumption]);
     eauto 7.
